@@ -5,5 +5,7 @@ cd "$(dirname "$0")"
 export CARGO_NET_OFFLINE=true
 python3 tools/translate.py --repo /repo || true
 (cd lean && lake build FlacModel flacdrv)
+# every property module, best effort (each check builds and reports its own module anyway)
+(cd lean && lake build FlacModel.All) || true
 [ -f harness/Cargo.lock ] || cp /repo/Cargo.lock harness/Cargo.lock
 (cd harness && cargo build --offline --profile release && cargo build --offline --profile checked)
